@@ -31,6 +31,14 @@ macro_rules! opaque {
     )* } }
 }
 opaque!(Payload, DeliveryTag, Fields, Symbol, AmqpError, ConnectionStopReason, AttachRest);
+// bytes::Bytes as far as these functions may look at it: its length (R11)
+impl Payload {
+    pub uninterp spec fn spec_len(&self) -> nat;
+    #[verifier::external_body]
+    pub fn len(&self) -> (r: usize) ensures r == self.spec_len() { unimplemented!() }
+    #[verifier::external_body]
+    pub fn is_empty(&self) -> (r: bool) ensures r == (self.spec_len() == 0) { unimplemented!() }
+}
 
 //@@ type file=fe2o3-amqp/src/link/error.rs kind=enum name=SessionStopReason clone
 //@@ end
@@ -823,7 +831,7 @@ impl Session {
                 && final(self).delivery_tag_by_id == old(self).delivery_tag_by_id,     // [C15.transfer.unattached] a transfer for an unattached handle is an error and reaches no link
         old(self).link_by_input_handle@.contains_key(InputHandle(transfer.handle.0))
             ==> Self::routed(old(self).link_by_input_handle@, final(self).link_by_input_handle@, InputHandle(transfer.handle.0),
-                    RelayCall::Transfer { transfer, payload }),                         // [C11.route.transfer] the frame (performative and payload unchanged) reaches exactly the link attached under its handle
+                    RelayCall::Transfer { transfer, payload }),                         // [C11.route.transfer] [C10.session.every-frame-reaches-its-link] [C01.session.every-frame-reaches-its-link] the frame (performative and payload unchanged) reaches exactly the link attached under its handle -- EVERY frame: also one without payload (its performative may be the only one of the delivery that carries delivery-id, tag and format)
         old(self).link_by_input_handle@.contains_key(InputHandle(transfer.handle.0)) && old(self).link_by_input_handle@[InputHandle(transfer.handle.0)] is Receiver ==> r is Ok,   // [C13.drop.in-flight-transfer-is-not-a-session-error] a transfer for an attached receiving link is never a session error, whether or not the application still holds the Receiver: dropping a link handle with deliveries in flight does not end the session
         r is Ok ==> r->Ok_0 is None,                                                    // [C02.session.no-immediate-disposition]
         forall|k: (Role, u32)| #![auto] k.0 == Role::Receiver ==> (final(self).delivery_tag_by_id@.contains_key(k) <==> old(self).delivery_tag_by_id@.contains_key(k))
